@@ -104,7 +104,7 @@ def _robust(f, eps):
 
 
 def _robust_model(ctx, neg_ob):
-    """a model of pc /\ neg_ob whose comparisons hold with a margin, if there is one"""
+    """a model of (pc and neg_ob) whose comparisons hold with a margin, if there is one"""
     try:
         pc = z3.And(*ctx.solver.assertions()) if len(ctx.solver.assertions()) else z3.BoolVal(True)
         for eps in (1e-3, 1e-6):
